@@ -84,7 +84,7 @@ class Unit:
                         if v.under_contract and getattr(v, 'probe_ok', True) and v.item.body_range():
                             a = pos2line.off(v.ct[v.lo][2])
                             b = pos2line.off(v.ct[v.hi][2]) + len(v.ct[v.hi][1])
-                            dup = make_probe(txt[a:b], v.item.name)
+                            dup = getattr(v, 'probe_prefix', '') + make_probe(txt[a:b], v.item.name)
                             w._ins(v.ct[v.hi][3], '\n' + dup + '\n', 'VACUITY::' + v.name())
                             n_dup += 1
                     if n_dup:
@@ -277,6 +277,9 @@ def classify(unit, res):
         if msg.startswith('aborting due to') or msg.startswith('could not compile'):
             continue
         is_vf = any(msg.startswith(v) or v in msg for v in VERIF_FAIL)
+        if any(u in msg for u in ('Resource limit', 'rlimit')):
+            undecided.append('resource limit: ' + (d.get('rendered') or msg)[:400])
+            continue
         if not is_vf:
             undecided.append('verus/rustc error: %s' % (d.get('rendered') or msg)[:600])
             continue
